@@ -70,7 +70,10 @@ func Decode(tp *onnx.TensorProto) (v *val.V, c Class, why string) {
 		return nil, Unspecified, "nil tensor"
 	}
 	dt := val.DT(tp.DataType)
-	if tp.DataLocation != onnx.TensorProto_DEFAULT || tp.Segment != nil || len(tp.ExternalData) > 0 {
+	// external_data entries only mean something when data_location is EXTERNAL (onnx.proto: "external_data ...
+	// MUST be set only when data_location = EXTERNAL" is a producer rule; a consumer looks at data_location); a
+	// tensor whose payload is inline keeps its inline value whatever is left over in that list
+	if tp.DataLocation != onnx.TensorProto_DEFAULT || tp.Segment != nil {
 		return nil, Unspecified, "external or segmented data"
 	}
 	if !supported(dt) {
